@@ -152,6 +152,18 @@ def pairs_cases(cfgname, enc, hx, a, seed):
                 yield {'cfg': cfgname, 'enc': enc, 'hex': hx, 'seed': seed, 'f': [[a] + va, [b] + vb]}
 
 
+def triples_cases(cfgname, enc, hx, a, seed):
+    """thorough only: every unordered triple containing bit a as its smallest member x {shortest, longest}^3"""
+    import itertools
+    cfg = isogen.get_cfg(cfgname)
+    rest = [b for b in isogen.bits_of(cfgname) if b > a]
+    for b, c in itertools.combinations(rest, 2):
+        for va in isogen.boundary_variants(cfg[str(a)]):
+            for vb in isogen.boundary_variants(cfg[str(b)]):
+                for vc in isogen.boundary_variants(cfg[str(c)]):
+                    yield {'cfg': cfgname, 'enc': enc, 'hex': hx, 'seed': seed, 'f': [[a] + va, [b] + vb, [c] + vc]}
+
+
 def long_cases(cfgname, enc, hx, seed):
     cfg = isogen.get_cfg(cfgname)
     bits = isogen.bits_of(cfgname)
@@ -212,6 +224,11 @@ def plan(tier, seed, which):
         for bit in isogen.bits_of(cfgname):
             ts.append({'fam': 'pairs', 'cfg': cfgname, 'enc': enc, 'hex': hx, 'bit': bit, 'seed': seed,
                        'which': which})
+    if tier == 'thorough':
+        for enc, hx in (('latin_1', False), ('cp500', True)):
+            for bit in isogen.bits_of('PKG'):
+                ts.append({'fam': 'triples', 'cfg': 'PKG', 'enc': enc, 'hex': hx, 'bit': bit, 'seed': seed,
+                           'which': which})
     # interleave heavy and light tasks for an even static partition
     ts.sort(key=lambda t: (t['fam'], t['bit'] if 'bit' in t else 0, t['cfg'], t['enc'], t['hex']))
     return ts
@@ -225,6 +242,8 @@ def run_task(task):
         gen = singles_cases(task['cfg'], task['enc'], task['hex'], task['bit'], task['seed'], extras=(which == 'C02'))
     elif task['fam'] == 'pairs':
         gen = pairs_cases(task['cfg'], task['enc'], task['hex'], task['bit'], task['seed'])
+    elif task['fam'] == 'triples':
+        gen = triples_cases(task['cfg'], task['enc'], task['hex'], task['bit'], task['seed'])
     else:
         gen = long_cases(task['cfg'], task['enc'], task['hex'], task['seed'])
     n = 0
